@@ -116,6 +116,75 @@ def gen_cases(rng, tier):
     return cases
 
 
+def thread_cases(rng, tier):
+    out = []
+    for (nth, per) in [(2, 1), (2, 2), (3, 1)]:
+        for _ in range(2):
+            c = thread_case(rng, nth, per, sched=[])
+            total = sum(len(v) for v in c["vals"])
+            counts = [len(v) * total for v in c["vals"]]
+            scheds = list(B.all_schedules([min(x, 3) for x in counts]))
+            if len(scheds) > 150:
+                scheds = rng.sample(scheds, 150)
+            for s in scheds:
+                out.append({"kind": "threads", "vals": c["vals"], "sched": s, "_exh": True})
+    for _ in range(150 if tier == "quick" else 1500):
+        out.append(thread_case(rng, rng.randint(2, 8), rng.randint(1, 3)))
+    return out
+
+
+def concurrent_lending(rng, tier, prop):
+    """threads lending values through ONE shared &Unimock under the controlled scheduler (one step per OnceCell::try_insert), all
+    interleavings for the small programs: every thread must read back its own values, all addresses distinct, nothing lost.
+    -> (number of cases, replay payload or None)"""
+    binary = C.build_harness("chain")
+    cases = thread_cases(rng, tier)
+    impl = C.run_harness(binary, [harness_line(c, i) for i, c in enumerate(cases)], timeout=900)
+    model = C.coq_eval_cases(PRELUDE, [coq_case(c) for c in cases], show="lines_of_chcases", shard=40)
+    def results(o):
+        return [l for l in o if not (l.startswith("t") and " TryInsert " in l)]
+    bad = [i for i in range(len(cases)) if project(impl[i]) != project(model[i])]
+    res_bad = [i for i in bad if results(impl[i]) != results(model[i])]
+    if not bad:
+        return len(cases), None
+    payload = {"property": prop, "part": "lending"}
+    if res_bad:
+        i = min(res_bad, key=lambda k: len(harness_line(cases[k], 0)))
+        payload.update({"theorem_or_correspondence": f"correspondence {prop} (concurrent lending part): values read back / live counts vs the chain model (C13_concurrent_pushes)",
+                        "case": {k: v for k, v in cases[i].items() if not k.startswith("_")}, "harness_line": harness_line(cases[i], "replay"),
+                        "expected_by_model": model[i], "observed_on_implementation": impl[i], "disagreeing_cases": len(bad)})
+        return len(cases), payload
+    stress = C.run_harness(binary, ["case stress STRESS 8 4 %d" % (300 if tier == "quick" else 2000)], timeout=900)[0]
+    if any(l.startswith("stress:FAIL") for l in stress):
+        payload.update({"theorem_or_correspondence": "real-thread stress on a shared &Unimock (found while searching after the try_insert trace stopped matching the model)",
+                        "case": {"kind": "stress", "line": "case stress STRESS 8 4 2000"}, "observed_on_implementation": stress})
+        return len(cases), payload
+    i = bad[0]
+    payload.update({"theorem_or_correspondence": "trace correspondence (concurrent lending part): the sequence of OnceCell::try_insert steps differs from the model's cursor walk "
+                                                 "(results agreed on every schedule tried and the real-thread stress found nothing)",
+                    "closest_case": harness_line(cases[i], "replay"), "expected_by_model": model[i], "observed_on_implementation": impl[i], "no_input": True})
+    return len(cases), payload
+
+
+def replay_lending(prop, payload, path):
+    binary = C.build_harness("chain")
+    case = payload.get("case")
+    if case is None:
+        print("replay file names an obligation, not an input:", payload.get("theorem_or_correspondence")); return 1
+    if case.get("kind") == "stress":
+        out = C.run_harness(binary, [case["line"]], timeout=900)[0]
+        print(out)
+        if any(l.startswith("stress:FAIL") for l in out):
+            C.violation(prop, path); return 1
+        print("stress found nothing"); return 0
+    impl = C.run_harness(binary, [harness_line(case, 0)])
+    model = C.coq_eval_cases(PRELUDE, [coq_case(case)], show="lines_of_chcases")
+    print("model:", model[0]); print("impl :", impl[0])
+    if project(impl[0]) != project(model[0]):
+        C.violation(prop, path); return 1
+    print("agree"); return 0
+
+
 def nontrivial(c):
     if c["kind"] == "seq":
         return any(sum(1 for o in ops if o[0] == "r") >= 3 for ops in c["sessions"])
